@@ -11,14 +11,14 @@ from vf.zoo import vec
 
 ID = "C02"
 LEVEL = "exploration"
-BUDGET = {"quick": 3200, "thorough": 64000}
+BUDGET = {"quick": 12800, "thorough": 192000}
 MIN_NONTRIVIAL = {"quick": 200, "thorough": 2000}
 RULE = (
     "Hypothesis draws integrator class (leapfrog, BCSS 2/3/4, symmetric compositions with 0-5 generated free "
     "coefficients and either initial flow, implicit leapfrog and implicit midpoint with both fixed-point solvers, "
     "constrained leapfrog with 1-4 inner steps and all three projection solvers; default or tightened solver "
     "tolerances) x compatible system class x metric type x state (on the manifold for constrained systems) x "
-    "signed step size 0.02-0.3 x n in 1..20. Oracle: n steps, negate dir, n steps returns to the start within "
+    "signed step size 0.02-0.3 (constrained systems also 0.3-1.6 with 2-4 inner steps, where retractions become non-unique) x n in 1..20. Oracle: n steps, negate dir, n steps returns to the start within "
     "n*tau*(1+|z|), tau = 1e-11 explicit / 1e-7 implicit+constrained at default tolerances / 1e-9 tightened; a "
     "raising step must raise a mici IntegratorError subclass (counted as discard, never a pass); pos/mom/dir bytes "
     "of the input state object are identical before and after every step call, raising ones included. Non-trivial: "
@@ -31,12 +31,31 @@ ASSUMPTIONS = ["step sizes are kept inside the linear stability region of the zo
 def _case(draw):
     spec = draw(zoo.system_spec(classes=dyn.WEIGHTED_CLASSES, max_dim=3, allow_down=True))
     n = spec["dim"]
-    return {"sys": spec, "int": draw(dyn.integrator_spec(spec["cls"])), "q": draw(vec(n, -1.2, 1.2)),
+    ispec = draw(dyn.integrator_spec(spec["cls"]))
+    if ispec["type"] == "constrained" and draw(st.booleans()):
+        # large steps on curved manifolds: retractions that converge to a different root backwards must be caught by
+        # the integrator's own reversibility check for EVERY inner sub-step (raising), never returned silently
+        ispec["eps"] = draw(zoo.unit(0.3, 1.6))
+        ispec["n_inner"] = draw(st.integers(2, 4))
+        ispec["tight"] = True
+    return {"sys": spec, "int": ispec, "q": draw(vec(n, -1.2, 1.2)),
             "p": draw(vec(n, -1.5, 1.5)), "dir": draw(st.sampled_from([1, -1])), "n": draw(st.integers(1, 20))}
 
 
+@st.composite
+def _large_constrained(draw):
+    """Curved manifolds with steps so large that retractions are non-unique: a step either raises or is reversible."""
+    spec = draw(zoo.system_spec(classes=zoo.CONSTRAINED, min_dim=2, max_dim=3, allow_down=True, curved=True))
+    n = spec["dim"]
+    ispec = draw(dyn.integrator_spec(spec["cls"], tight=True))
+    ispec["n_inner"] = draw(st.integers(2, 6))
+    ispec["eps"] = draw(zoo.unit(0.3, 1.5)) * ispec["n_inner"]   # inner (retraction) step size 0.3-1.5
+    return {"sys": spec, "int": ispec, "q": draw(vec(n, -1.2, 1.2)), "p": draw(vec(n, -2.0, 2.0)),
+            "dir": draw(st.sampled_from([1, -1])), "n": draw(st.integers(1, 3))}
+
+
 def strategy(tier):
-    return _case()
+    return st.one_of(_case(), _large_constrained())
 
 
 def selfcheck():
@@ -99,6 +118,12 @@ def run_case(case) -> Result:
         res.classes.append("discard:non-finite-trajectory")
         return res
     zn = np.concatenate([np.asarray(cur.pos), np.asarray(cur.mom)])
+    if np.max(np.abs(zn)) > 100.0 * (1.0 + max(np.max(np.abs(q0)), np.max(np.abs(p0)))):
+        # the trajectory ran away (step far outside the stability region): rounding errors are amplified without
+        # bound on the way back, so the round trip says nothing about reversibility of the scheme
+        res.discarded = True
+        res.classes.append("discard:runaway-trajectory")
+        return res
     back = cur.copy()
     back.dir = -back.dir
     for k in range(n):
